@@ -671,6 +671,11 @@ def _process_internal_events_without_default_matchers(
             if flow_id in state.flow_id_states:
                 for flow_state in state.flow_id_states[flow_id]:
                     if arguments.items() <= flow_state.arguments.items():
+                        # An instance that has ended (and will be discarded by the clean-up
+                        # at some point) does not handle the request
+                        is_ended = (
+                            _is_done_flow(flow_state) and flow_state.activated == 0
+                        )
                         _finish_flow(
                             state,
                             flow_state,
@@ -678,7 +683,8 @@ def _process_internal_events_without_default_matchers(
                             deactivate,
                         )
                         assert flow_state.loop_id
-                        handled_event_loops.add(flow_state.loop_id)
+                        if not is_ended:
+                            handled_event_loops.add(flow_state.loop_id)
     elif event.name == InternalEvents.STOP_FLOW:
         if "flow_instance_uid" in event.arguments:
             flow_instance_uid = event.arguments["flow_instance_uid"]
@@ -703,6 +709,11 @@ def _process_internal_events_without_default_matchers(
             if flow_id in state.flow_id_states:
                 for flow_state in state.flow_id_states[flow_id]:
                     if arguments.items() <= flow_state.arguments.items():
+                        # An instance that has ended (and will be discarded by the clean-up
+                        # at some point) does not handle the request
+                        is_ended = (
+                            _is_done_flow(flow_state) and flow_state.activated == 0
+                        )
                         _abort_flow(
                             state=state,
                             flow_state=flow_state,
@@ -710,7 +721,8 @@ def _process_internal_events_without_default_matchers(
                             deactivate_flow=deactivate,
                         )
                         assert flow_state.loop_id
-                        handled_event_loops.add(flow_state.loop_id)
+                        if not is_ended:
+                            handled_event_loops.add(flow_state.loop_id)
         # TODO: Add support for all flow instances of same flow with "flow_id"
     # elif event.name == "ResumeFlow":
     #     pass
